@@ -689,6 +689,48 @@ def o_c16(meta, ans, ctx):
     return None
 
 
+class C08Spec(CaseSpec):
+    """the loader cases in the default configuration, then the full / heap loaders again with the crate built
+    without the `mmap` feature (the only other configuration that has loaders)"""
+    def run(self, prop, tier, seed, replay=None):
+        res = CaseSpec.run(self, prop, tier, seed, replay)
+        if replay or any(s.get('op') == 'build' for s, _ in res['disagreements']):
+            return res
+        ok, out = core.harness_build_nommap()
+        sig0 = {'op': 'load-nommap', 'type_shape': '', 'rust_type': '', 'outcome': ''}
+        if not ok:
+            res['disagreements'].append((dict(sig0, outcome='build-failed', kind='build-nommap'),
+                                         {'what': 'cargo build --no-default-features of the harness (epserde without mmap) failed', 'output': out[-3000:]}))
+            return res
+        u = build_universe(seed, tier)
+        cs = casegen.gen_cases(prop, u, seed, tier, probe=run_harness)
+        keep = [k for k, m in enumerate(cs.meta) if m.get('kind') == 'type' or (m.get('kind') == 'load' and m.get('loader') in ('full', 'mem') and m.get('flags') == 0)]
+        lines = [cs.lines[k] for k in keep]
+        metas = [cs.meta[k] for k in keep]
+        impl = run_harness(lines, binary=core.HARNESS_BIN_NOMMAP)
+        model = run_model(harness_names(), lines)
+        ctx = {'u': u, 'prop': prop}
+        n = 0
+        for line, meta, ia, ma in zip(lines, metas, impl, model):
+            if meta.get('kind') != 'load': continue
+            n += 1
+            rust = u.types[meta['ti']].rust()
+            sig = dict(sig0, rust_type=rust, outcome=outcome_class(ia), op='load-%s-nommap' % meta['loader'])
+            if not answers_agree(ia, ma):
+                res['disagreements'].append((dict(sig, kind='disagreement'), {'line': line, 'rust_type': rust, 'impl': ia[:2000], 'model': ma[:2000],
+                                                                              'lines': [line], 'meta': _clean(meta), 'configuration': 'no mmap feature'}))
+            ctx['model_ans'] = ma
+            why = self.oracle(meta, ia, ctx)
+            if why:
+                res['failures'].append((dict(sig, clause=why.split(':')[0]), {'line': line, 'rust_type': rust, 'why': why + ' [crate built without the mmap feature]',
+                                                                              'impl': ia[:2000], 'model': ma[:2000], 'lines': [line], 'meta': _clean(meta)}))
+        if len(impl) != len(lines):
+            res['disagreements'].append((dict(sig0, outcome='process-died', kind='run-nommap'), {'what': 'the no-mmap harness stopped answering', 'last': impl[-1] if impl else ''}))
+        res['coverage']['evaluations'] += n
+        res['coverage']['configurations'] = {'default (std, mmap, derive)': res['coverage']['evaluations'] - n, 'std, derive (no mmap)': n}
+        return res
+
+
 class ProbeSpec(CaseSpec):
     """line-protocol cases plus probe programs that are built (and, when they compile, run)"""
     prefix = ''
@@ -862,7 +904,7 @@ SPECS = {
     'C06': CaseSpec(o_c06, 'golden corpus (147 files written by the build at claim time for the fixed corpus universe): re-serialization must reproduce the stored bytes, both deserializers must return the stored value, hash words must be the stored ones; plus bytes / hash feeds / digests of every generated type and value against the independent Lean encoder and XXH3 port.'),
     'C09': C09Spec(o_c09, 'failing loads (8 truncation points, corrupted magic / type hash, a foreign type, garbage) and succeeding loads, repeated 12 (40) times per loader under a counting global allocator and a /proc/self/maps count; 9 probe programs (one per access path) compiled against the working tree.'),
     'C04': CaseSpec(o_c04, 'type and alignment feeds (recorded from the real type_hash / align_hash with a recording Hasher) and digests of every type of the universe, which contains for every definition without type parameters its near-miss mutants (field renamed, fields swapped, field retyped to a same-size type, copy kind toggled, repr/align changed, const renamed / value changed, variant renamed / reordered; vec / boxed slice / array / tuple variations); bytes of each type deserialized as its mutants and as other types (all near-miss pairs, 6000 sampled ordered pairs in the quick tier, all pairs in the thorough tier), both modes.'),
-    'C08': CaseSpec(o_c08, 'store + load_full / load_mem / load_mmap / mmap of generated values (all 8 flag sets for a quarter of the cases in the quick tier), file lengths of every residue modulo 64 (32 in the quick tier), region range through the hook, tail bytes read back, the case moved, boxed, read from 4 threads and sent to another thread.'),
+    'C08': C08Spec(o_c08, 'store + load_full / load_mem / load_mmap / mmap of generated values (all 8 flag sets for a quarter of the cases in the quick tier), file lengths of every residue modulo 64 (32 in the quick tier), region range through the hook, tail bytes read back, the case moved, boxed, read from 4 threads and sent to another thread; the load_full / load_mem cases again with the crate built without the mmap feature.'),
     'C18': CaseSpec(o_c18, 'serialize_with_schema of every generated value: bytes versus the plain writer, rows versus the model forest, pre-order / tiling / in-stream / zero padding / alignment invariants on the real rows, to_csv and debug under catch_unwind.'),
     'C13': CaseSpec(o_c13, 'failure at every position k in [0,len] (all k for a fifth of the types in the quick tier, boundary and sampled k for the rest) with random per-call caps and Interrupted patterns, splitting/retrying writers, flush failure, BufWriter over /dev/full; slice references and structures holding them with the allocator protecting the borrowed buffer.'),
     'C14': CaseSpec(o_c14, '10 fragmentation patterns (1-byte, prime-sized, mixed, pseudo-random, with Interrupted, through BufReader) and failure (error or end of file) at positions k in [0,len) for generated values.'),
